@@ -75,7 +75,7 @@ Outcome(x) ==
                    ELSE IF x.slash /\ f \in {"md", "html"} THEN Unspec      \* "/page/" : the documentation is silent
                    ELSE Page(f)
               ELSE IF h.exact = "file" THEN (IF x.index \/ x.slash THEN Unspec ELSE Static)
-              ELSE IF h.exact = "dir" THEN Dir
+              ELSE IF h.exact = "dir" THEN (IF x.index THEN Unspec ELSE Dir)
               ELSE NotFound
 
 (* does an observed answer agree with the demanded one?                      *)
